@@ -291,6 +291,13 @@ func (s *Store) Close() error {
 
 	cerr := s.Err()
 
+	// Write outstanding primary records before the index that refers to them,
+	// the same order as commit uses. Otherwise a crash during Close can leave
+	// an index that points at records that were never written.
+	if _, err := s.index.Primary.Flush(); err != nil {
+		cerr = err
+	}
+
 	err := s.index.Close()
 	if err != nil {
 		cerr = err
